@@ -67,7 +67,7 @@ func New(r *simrt.Rng, p Params) *G {
 	// revisit values), plus a few that are valid but unusual as list keys and leaf values:
 	// a colon (module-prefix look-alike), a slash, '=', a space, a dot, a leading digit
 	return &G{R: r, P: p, Strs: []string{"a", "b", "c", "ab", "xyz", "q", "foo", "k", "a", "b", "c", "ab",
-		"65000:100", "eth0:1", "ge-0/0/1", "k=v", "x y", "1.2.3.4", "9lives", "ab:cd:ef", "7", "123", "007"}}
+		"65000:100", "eth0:1", "ge-0/0/1", "k=v", "x y", "1.2.3.4", "9lives", "ab:cd:ef", "7", "123", "007", "true"}}
 }
 
 func (g *G) chance(p float64) bool {
@@ -474,6 +474,12 @@ func (g *G) union(parent reflect.Value, ut reflect.Type, e *yang.Entry) (reflect
 			continue
 		}
 		out := conv.Call([]reflect.Value{raw})
+		if !out[1].IsNil() && kind == yang.Ybinary {
+			// the conversion functions of wrapper unions accept the package's own Binary type only
+			if bt, ok := BinaryTypeOf[ut.PkgPath()]; ok {
+				out = conv.Call([]reflect.Value{raw.Convert(bt)})
+			}
+		}
 		if !out[1].IsNil() {
 			continue
 		}
@@ -481,6 +487,10 @@ func (g *G) union(parent reflect.Value, ut reflect.Type, e *yang.Entry) (reflect
 	}
 	return reflect.Value{}, false
 }
+
+// BinaryTypeOf maps the import path of a generated package to its `Binary` type (filled in by
+// the harness from the corpus registry).
+var BinaryTypeOf = map[string]reflect.Type{}
 
 // resizeSlice drops the last element of a slice-typed leaf value or appends one fresh
 // element (distinct from the present ones) to a copy of it.
